@@ -612,21 +612,21 @@ Proof.
 Qed.
 Lemma add2_sub2_cancel (p t : V2) : sub2 (add2 p t) t = p.
 Proof. d2 p; d2 t. unf. pair_eq; ring. Qed.
-(* repaired __getitem__ (un-translated position passed on): the slice IS the same geometry *)
-Lemma par2d_getitem_fixed_l (pos : V2) (ax : option V2) (tr : V2) (g : par2d) :
-  mk_par2d sqrt pos ax tr = Some g -> par2d_getitem sqrt true g ax = Some g.
+(* __getitem__ (un-translated position passed on): the slice IS the same geometry *)
+Lemma par2d_getitem_same_l (pos : V2) (ax : option V2) (tr : V2) (g : par2d) :
+  mk_par2d sqrt pos ax tr = Some g -> par2d_getitem sqrt g ax = Some g.
 Proof.
   intros Hg. destruct (mk_par2d_fields _ _ _ _ Hg) as [Hp Ht].
   unfold par2d_getitem. rewrite Hp, Ht, add2_sub2_cancel. exact Hg.
 Qed.
-(* current __getitem__ (det_pos_init=self.det_pos_init, translation=self.translation): whenever it
-   succeeds, the slice's det_pos_init is off by exactly the translation *)
-Lemma par2d_getitem_current_l (pos : V2) (ax : option V2) (tr : V2) (g g' : par2d) :
-  mk_par2d sqrt pos ax tr = Some g -> par2d_getitem sqrt false g ax = Some g' ->
+(* the defect repaired by 388a3ff, as a statement about the explicit old call: passing the translated
+   position together with the translation moves det_pos_init by exactly the translation *)
+Lemma par2d_getitem_old_l (pos : V2) (ax : option V2) (tr : V2) (g g' : par2d) :
+  mk_par2d sqrt pos ax tr = Some g -> mk_par2d sqrt (p2_pos g) ax (p2_tr g) = Some g' ->
   p2_pos g' = add2 (p2_pos g) tr /\ (tr <> (0, 0) -> p2_pos g' <> p2_pos g).
 Proof.
   intros Hg Hs. destruct (mk_par2d_fields _ _ _ _ Hg) as [Hp Ht].
-  unfold par2d_getitem in Hs. destruct (mk_par2d_fields _ _ _ _ Hs) as [Hp' Ht'].
+  destruct (mk_par2d_fields _ _ _ _ Hs) as [Hp' Ht'].
   rewrite Ht in Hp'. split; [exact Hp'|].
   intros Hne He. apply Hne. rewrite Hp' in He. destruct (p2_pos g) as [x0 x1]. d2 tr. unf.
   injection He as E0 E1. pair_eq; lra.
@@ -860,42 +860,51 @@ Proof.
   destruct (Hf eq_refl) as [Ho [Ha [Hb _]]]. repeat split; assumption.
 Qed.
 
-Lemma mk_curved_wf (fixed sph : bool) (a0 a1 : V3) (r : R) (d : det3d) :
-  mk_curved sqrt fixed sph a0 a1 r = Some d -> wf_det3' d.
+Lemma mk_curved_nonzero (fixed sph : bool) (a0 a1 : V3) (r : R) (d : det3d) :
+  mk_curved sqrt fixed sph a0 a1 r = Some d ->
+  norm3 sqrt a0 <> 0 /\ norm3 sqrt a1 <> 0 /\ 0 < r /\
+  exists m, (if fixed then Some (curved_frame sqrt a0 a1) else curved_rot sqrt a0 a1) = Some m /\
+            d = (if sph then Sph (sdiv3 a0 (norm3 sqrt a0)) (sdiv3 a1 (norm3 sqrt a1)) r m
+                 else Cyl (sdiv3 a0 (norm3 sqrt a0)) (sdiv3 a1 (norm3 sqrt a1)) r m).
 Proof.
   unfold mk_curved. numR.
   destruct (Reqb_spec (norm3 sqrt (cross3 a0 a1)) 0) as [Hn|Hn]; [intros Hx; discriminate Hx|].
-  destruct (Reqb_spec (dot3 a0 a1) 0) as [Hp|Hp]; cbn [negb]; [|intros Hx; discriminate Hx].
+  destruct (Rltb _ _); [intros Hx; discriminate Hx|].
   destruct (Rleb_spec r 0) as [Hr|Hr]; [intros Hx; discriminate Hx|].
   assert (Hc : cross3 a0 a1 <> (0, 0, 0)) by (intros Hc; apply Hn, norm3_zero_iff, Hc).
   assert (H0 : norm3 sqrt a0 <> 0).
   { intros H0. apply norm3_zero_iff in H0. subst a0. apply Hc, cross3_zero_l. }
   assert (H1 : norm3 sqrt a1 <> 0).
   { intros H1. apply norm3_zero_iff in H1. subst a1. apply Hc, cross3_zero_r. }
-  destruct fixed.
-  - intros [= <-]. destruct (curved_frame_spec a0 a1 H0 H1 Hp) as [Ho _].
-    destruct sph; cbn; repeat split; try (apply normalize3_unit; assumption); try lra; exact Ho.
-  - destruct (curved_rot sqrt a0 a1) as [m|] eqn:Em; [|intros Hx; discriminate Hx].
-    intros [= <-]. destruct sph; cbn; repeat split; try (apply normalize3_unit; assumption); try lra;
-      apply (curved_rot_orth _ _ _ Em).
+  destruct (if fixed then _ else _) as [m|]; [|intros Hx; discriminate Hx].
+  intros [= <-]. repeat split; try assumption; try lra. exists m. split; [reflexivity|]. destruct sph; reflexivity.
+Qed.
+
+(* the code as it is ([fixed = false]): the alignment matrix is a product of two rotations *)
+Lemma mk_curved_wf (sph : bool) (a0 a1 : V3) (r : R) (d : det3d) :
+  mk_curved sqrt false sph a0 a1 r = Some d -> wf_det3' d.
+Proof.
+  intros Hd. destruct (mk_curved_nonzero _ _ _ _ _ _ Hd) as [H0 [H1 [Hr [m [Em ->]]]]].
+  destruct sph; cbn; repeat split; try (apply normalize3_unit; assumption); try lra;
+    apply (curved_rot_orth _ _ _ Em).
+Qed.
+(* the repaired alignment ([fixed = true]) for exactly perpendicular axes *)
+Lemma mk_curved_fixed_wf (sph : bool) (a0 a1 : V3) (r : R) (d : det3d) :
+  dot3 a0 a1 = 0 -> mk_curved sqrt true sph a0 a1 r = Some d -> wf_det3' d.
+Proof.
+  intros Hp Hd. destruct (mk_curved_nonzero _ _ _ _ _ _ Hd) as [H0 [H1 [Hr [m [Em ->]]]]].
+  injection Em as <-. destruct (curved_frame_spec a0 a1 H0 H1 Hp) as [Ho _].
+  destruct sph; cbn; repeat split; try (apply normalize3_unit; assumption); try lra; exact Ho.
 Qed.
 
 (* with the repaired alignment, surface_deriv(0, 0) = radius * axes (cylinder: height axis itself) *)
 Lemma mk_curved_fixed_deriv (sph : bool) (a0 a1 : V3) (r u v : R) (d : det3d) :
-  mk_curved sqrt true sph a0 a1 r = Some d ->
+  dot3 a0 a1 = 0 -> mk_curved sqrt true sph a0 a1 r = Some d ->
   deriv3 d (u, v, (1, 0), (1, 0)) =
   (scal3 r (fst (det3_axes d)), if sph then scal3 r (snd (det3_axes d)) else snd (det3_axes d)).
 Proof.
-  unfold mk_curved. numR.
-  destruct (Reqb_spec (norm3 sqrt (cross3 a0 a1)) 0) as [Hn|Hn]; [intros Hx; discriminate Hx|].
-  destruct (Reqb_spec (dot3 a0 a1) 0) as [Hp|Hp]; cbn [negb]; [|intros Hx; discriminate Hx].
-  destruct (Rleb_spec r 0) as [Hr|Hr]; [intros Hx; discriminate Hx|].
-  assert (Hc : cross3 a0 a1 <> (0, 0, 0)) by (intros Hc; apply Hn, norm3_zero_iff, Hc).
-  assert (H0 : norm3 sqrt a0 <> 0).
-  { intros H0. apply norm3_zero_iff in H0. subst a0. apply Hc, cross3_zero_l. }
-  assert (H1 : norm3 sqrt a1 <> 0).
-  { intros H1. apply norm3_zero_iff in H1. subst a1. apply Hc, cross3_zero_r. }
-  intros [= <-]. destruct (curved_frame_spec a0 a1 H0 H1 Hp) as [_ [Ha Hb]].
+  intros Hp Hd. destruct (mk_curved_nonzero _ _ _ _ _ _ Hd) as [H0 [H1 [Hr [m [Em ->]]]]].
+  injection Em as <-. destruct (curved_frame_spec a0 a1 H0 H1 Hp) as [_ [Ha Hb]].
   set (m := curved_frame sqrt a0 a1) in *.
   destruct sph; cbn [deriv3 det3_axes fst snd]; numR; rewrite !mv3_scal.
   - f_equal; f_equal.
@@ -955,9 +964,9 @@ Proof.
   all: destruct curv; [apply (mk_circ_wf _ _ _ Ed) | apply (mk_flat1_wf _ _ Ed)].
 Qed.
 
-Lemma mk_cone_wf (fixed : bool) (rs rd : R) (curv : curv3) (pitch off : R) (axis : V3) (s2d : option V3)
+Lemma mk_cone_wf (rs rd : R) (curv : curv3) (pitch off : R) (axis : V3) (s2d : option V3)
     (axes : option (V3 * V3)) (tr : V3) (g : cone) :
-  mk_cone sqrt fixed rs rd curv pitch off axis s2d axes tr = Some g ->
+  mk_cone sqrt false rs rd curv pitch off axis s2d axes tr = Some g ->
   dot3 (c_axis g) (c_axis g) = 1 /\ dot3 (c_s2d g) (c_s2d g) = 1 /\ wf_det3' (c_det g) /\
   0 <= c_rs g /\ 0 <= c_rd g /\ ~ (c_rs g = 0 /\ c_rd g = 0) /\
   c_tr g = tr /\ c_pitch g = pitch /\ c_off g = off.
@@ -975,7 +984,7 @@ Proof.
   all: intros [= <-]; cbn.
   all: repeat split; try lra; try (apply (unit_axis_some _ _ Eu)); try (apply normalize3_unit, Hn);
     try (intros [A B]; lra).
-  all: destruct curv; [apply (mk_flat2_wf' _ _ _ Ed) | apply (mk_curved_wf _ _ _ _ _ _ Ed) | apply (mk_curved_wf _ _ _ _ _ _ Ed)].
+  all: destruct curv; [apply (mk_flat2_wf' _ _ _ Ed) | apply (mk_curved_wf _ _ _ _ _ Ed) | apply (mk_curved_wf _ _ _ _ _ Ed)].
 Qed.
 
 (* ------------------------------------------------------------ frommatrix *)
@@ -1304,9 +1313,7 @@ Proof.
   destruct (Reqb rs 0 && Reqb rd 0); [discriminate Hg'|]. injection Hg' as ->.
   assert (Hd' : d = (if sph then Sph (mv3 m (1, 0, 0)) (mv3 m (0, 0, 1)) r (curved_frame sqrt (mv3 m (1, 0, 0)) (mv3 m (0, 0, 1)))
                      else Cyl (mv3 m (1, 0, 0)) (mv3 m (0, 0, 1)) r (curved_frame sqrt (mv3 m (1, 0, 0)) (mv3 m (0, 0, 1))))).
-  { destruct sph; unfold mk_curved in Hd; numR;
-      destruct (Reqb _ 0); try discriminate Hd; destruct (negb _); try discriminate Hd;
-      destruct (Rleb r 0); try discriminate Hd; injection Hd as <-;
+  { destruct sph; destruct (mk_curved_nonzero _ _ _ _ _ _ Hd) as [_ [_ [_ [m' [Em ->]]]]]; injection Em as <-;
       rewrite !(sqrt_1_div3 _ U1), !(sqrt_1_div3 _ U3); reflexivity. }
   subst d.
   apply cone_detpoint_image; try reflexivity; try exact Hm.
@@ -1440,8 +1447,8 @@ Lemma constructed_wf_l :
   (forall rs rd curv s2d axis tr g, mk_fan sqrt rs rd curv s2d axis tr = Some g ->
      dot2 (f_s2d g) (f_s2d g) = 1 /\ wf_det2 (f_det g) /\ 0 <= f_rs g /\ 0 <= f_rd g /\
      ~ (f_rs g = 0 /\ f_rd g = 0) /\ f_tr g = tr) /\
-  (forall fixed rs rd curv pitch off axis s2d axes tr g,
-     mk_cone sqrt fixed rs rd curv pitch off axis s2d axes tr = Some g ->
+  (forall rs rd curv pitch off axis s2d axes tr g,
+     mk_cone sqrt false rs rd curv pitch off axis s2d axes tr = Some g ->
      dot3 (c_axis g) (c_axis g) = 1 /\ dot3 (c_s2d g) (c_s2d g) = 1 /\ wf_det3' (c_det g) /\
      0 <= c_rs g /\ 0 <= c_rd g /\ ~ (c_rs g = 0 /\ c_rd g = 0) /\
      c_tr g = tr /\ c_pitch g = pitch /\ c_off g = off).
